@@ -1081,6 +1081,48 @@ def option_ok_or_else(ip, st, ci):
     return [(s2, venum("core::result::Result", 1, "Err", [r])) for s2, r in _call_closure(ip, st, ci, clo, [])]
 
 
+@prim("cmp::PartialEq::eq", "cmp::PartialEq::ne")
+def partial_eq(ip, st, ci):
+    """== / != through the trait (Option<usize>, references to sizes ...): structural comparison."""
+    a, b = ci["args"]
+    for _ in range(3):
+        if a[0] == "ref":
+            a = ip.load(st, a[1])
+        if b[0] == "ref":
+            b = ip.load(st, b[1])
+
+    def eq(x, y):
+        if x[0] == "size" and y[0] == "size":
+            return ("eq", x[1] - y[1])
+        if x[0] == "enum" and y[0] == "enum":
+            if x[3] != y[3]:
+                return ("false",)
+            cs = [eq(p, q) for p, q in zip(x[4], y[4])]
+            cs = [c for c in cs if c != ("true",)]
+            if any(c == ("false",) for c in cs):
+                return ("false",)
+            if not cs:
+                return ("true",)
+            if len(cs) == 1:
+                return cs[0]
+            return ("and",) + tuple(cs)
+        if x[0] == "int" and y[0] == "int":
+            if T.iequal(x[1], y[1], st.F):
+                return ("true",)
+            if not x[1][3] and not y[1][3]:
+                return ("false",)
+            return ("opaque", "int-Eq", T.ishow(x[1]), T.ishow(y[1]))
+        if x[0] == "bool" and y[0] == "bool" and x[1] in (("true",), ("false",)) and y[1] in (("true",), ("false",)):
+            return ("true",) if x[1] == y[1] else ("false",)
+        if x[0] == "unit" and y[0] == "unit":
+            return ("true",)
+        raise Undecided("== on %s, %s" % (x[0], y[0]))
+    c = eq(a, b)
+    if ci["fn"]["name"] == "ne":
+        c = neg_cond(c)
+    return ("bool", c)
+
+
 @prim("Option::<T>::take")
 def option_take(ip, st, ci):
     a = tg_of(ci["args"][0])
